@@ -971,6 +971,59 @@ pub fn run(thorough: bool, mut rng: Rng, mut out: Out) {
     for r in &results {
         judge(&mut out, r);
     }
+    // F26 (known finding): StartTLS requested on an ldapi URL.  The quantifier of C17 ranges over all
+    // combinations of scheme and StartTLS setting; on ldapi the setting is silently ignored: no StartTLS
+    // request goes out and a cleartext handle over the Unix socket comes back.
+    {
+        use std::os::unix::net::UnixListener;
+        let dir = std::env::temp_dir().join(format!("l3v-tls-{}", std::process::id()));
+        let _ = std::fs::remove_dir_all(&dir);
+        let _ = std::fs::create_dir_all(&dir);
+        let path = dir.join("s");
+        if let Ok(l) = UnixListener::bind(&path) {
+            let seen = Arc::new(Mutex::new(Vec::<u8>::new()));
+            let seen2 = seen.clone();
+            let th = std::thread::spawn(move || {
+                if let Ok((mut c, _)) = l.accept() {
+                    let _ = c.set_read_timeout(Some(Duration::from_millis(300)));
+                    let mut buf = [0u8; 512];
+                    while let Ok(n) = c.read(&mut buf) {
+                        if n == 0 {
+                            break;
+                        }
+                        seen2.lock().unwrap().extend_from_slice(&buf[..n]);
+                    }
+                }
+            });
+            let enc: String = path.to_string_lossy().bytes().map(|b| if b.is_ascii_alphanumeric() { (b as char).to_string() } else { format!("%{:02X}", b) }).collect();
+            let url = format!("ldapi://{}", enc);
+            let outcome = rt.block_on(async {
+                let settings = LdapConnSettings::new().set_starttls(true);
+                match tokio::time::timeout(Duration::from_millis(OUTER_MS), LdapConnAsync::with_settings(settings, &url)).await {
+                    Err(_) => String::from("hang"),
+                    Ok(Err(e)) => err_kind(&e),
+                    Ok(Ok((conn, mut ldap))) => {
+                        ldap3::drive!(conn);
+                        let _ = tokio::time::timeout(Duration::from_millis(200), ldap.simple_bind("cn=probe", "secret-probe")).await;
+                        String::from("ok")
+                    }
+                }
+            });
+            let _ = th.join();
+            let first = seen.lock().unwrap().clone();
+            let (msgs, _) = split_cleartext(&first);
+            let starttls_seen = msgs.first().map(|m| m == &starttls_request()).unwrap_or(false);
+            out.case("ldapi + starttls=true", true);
+            out.r(
+                "tls.starttls-on-ldapi-hands-back-cleartext-handle",
+                !(outcome == "ok" && !starttls_seen),
+                &format!("StartTLS was requested in the settings; establishment returned {} and the peer saw {} cleartext message(s), the first {} the StartTLS request", outcome, msgs.len(), if starttls_seen { "being" } else { "NOT being" }),
+            );
+        } else {
+            out.stat("skipped.unix-listener");
+        }
+        let _ = std::fs::remove_dir_all(&dir);
+    }
     rt.shutdown_timeout(Duration::from_millis(200));
     out.finish("one case = one scripted loopback establishment (scheme x StartTLS x verification x connector x server behaviour); non-trivial = TLS was requested (ldaps or StartTLS)");
 }
